@@ -582,6 +582,130 @@ fn gen_sc(rng: &mut Rng) -> ScSpec {
     }
 }
 
+// ------------------------------------------------------------------ same-shape reuse (seeded defect C02-6)
+//
+// `compute_alignment` relies on `Traceback::init` having reset EVERY cell to TB_START: the traceback of a banded call
+// stops at the first cell outside the band (and the completion code takes over), and the loops over row 0 / column 0
+// rewrite only the S field of the border cells, never their I / D fields.  A traceback matrix that survives from the
+// previous call is only possible when the (m, n) shape is unchanged, so these histories keep |x| and |y| fixed and
+// alternate
+//   * a *painter*: `local` (all clips free) or `semiglobal` on a pair without any common k-mer (x over {A, C}, y over
+//     {G, T}) - the band is the whole matrix and every cell gets real pointers; in particular `I(i, 0) = XCLIP_PREFIX`
+//     for i >= 2 (local) and `D(0, j) = YCLIP_PREFIX` for j >= 2 (local, semiglobal);
+//   * a *victim* with a narrow band (w <= 2) whose traceback leaves the band through the border:
+//       A  x = junk^a core junk*, y = junk'^b core junk'* with a > b >= 1, x prefix not clippable, y prefix cheap
+//          (semiglobal, or custom with xclip_prefix MIN_SCORE / yclip_prefix ~ 0): the band start is the slanted gap
+//          line (0,0) -> (a,b), column 0 holds only the first rows; the path ends in `YCLIP_PREFIX` at the top cell
+//          (i, j) of a column j >= 1, jumps to (i, 0) - outside the band of column 0 - follows the `INS` the column-0
+//          loop wrote there and must stop at the I field of (i, 0) (TB_START; the completion inserts the rest);
+//       B  the transposed shape (b > a >= 1, y prefix not clippable, x prefix cheap; custom clips): `XCLIP_PREFIX` at
+//          (i, j), row 0 outside the band of column j >= 2, `DEL` at (0, j) and the D field of (0, j) must be TB_START.
+// Between them: random related pairs forced to the same lengths, all entry points.
+
+/// `junk^pre ++ core ++ junk^(len - pre - |core|)`, truncated to `len`
+fn framed(junk: u8, pre: usize, core: &[u8], len: usize) -> Vec<u8> {
+    let mut s = vec![junk; pre];
+    s.extend_from_slice(core);
+    s.truncate(len);
+    while s.len() < len {
+        s.push(junk);
+    }
+    s
+}
+
+fn gen_reuse_history(rng: &mut Rng) -> String {
+    let k = 1 + rng.below(3);
+    let w = rng.below(3);
+    let (m, n) = (8 + rng.below(10), 8 + rng.below(10));
+    // ACGT: A / C are the junk letters of x / y, the cores live on {G, T}
+    let alpha = b"ACGT".to_vec();
+    let mut idx = vec![usize::MAX; 256];
+    for (i, &c) in alpha.iter().enumerate() {
+        idx[c as usize] = i;
+    }
+    let (mat, mis) = (1 + rng.below(3) as i32, -(1 + rng.below(4) as i32));
+    let mut tab = vec![mis; 16];
+    for i in 0..4 {
+        tab[i * 4 + i] = mat;
+    }
+    if rng.chance(1, 3) {
+        // junk against junk is as good as a gap extension or better: the path substitutes as long as the band allows
+        tab[0 * 4 + 1] = 0;
+        tab[1 * 4 + 0] = 0;
+    }
+    let go = -(rng.below(5) as i32);
+    let ge = -(rng.below(3) as i32);
+    // clip penalties of the aligner (custom-family entry points): type A (x prefix forbidden, y prefix cheap), type B
+    // (the transposed), or anything
+    let low = |rng: &mut Rng| if rng.chance(2, 3) { MIN_SCORE } else { -(40 + rng.below(40) as i32) };
+    let cheap = |rng: &mut Rng| -(rng.below(3) as i32);
+    let kind = rng.below(5);
+    let clips = match kind {
+        0 | 1 => [low(rng), gen_clip(rng), cheap(rng), gen_clip(rng)],
+        2 | 3 => [cheap(rng), gen_clip(rng), low(rng), gen_clip(rng)],
+        _ => [gen_clip(rng), gen_clip(rng), gen_clip(rng), gen_clip(rng)],
+    };
+    let sc = ScSpec { go, ge, clips, f: TabFn { alpha, idx, tab } };
+    let custom_family = |rng: &mut Rng, x: &[u8], y: &[u8]| -> String {
+        let head = |e: &str| format!("{},{},{}", e, hex(x), hex(y));
+        match rng.below(8) {
+            0 | 1 => head("custom"),
+            2 => head("prehash"),
+            3 => head("tm"),
+            4 => format!("{},{}", head("sm"), u64::MAX),
+            5 => format!("{},n,{},{}", head("exp"), rng.below(2), u64::MAX),
+            6 => format!("{},{},{}", head("path"), u64::MAX, u64::MAX),
+            _ => format!("{},{},{}", head("path"), u64::MAX, gen_bits(rng)),
+        }
+    };
+    let ncalls = 2 + rng.below(4);
+    let mut calls: Vec<String> = vec![];
+    while calls.len() < ncalls {
+        let step = if calls.is_empty() { 0 } else { rng.below(10) };
+        match step {
+            // painter
+            0 | 1 | 2 => {
+                let x = rng.seq(b"AC", m);
+                let y = rng.seq(b"GT", n);
+                let e = *rng.pick(&["local", "local", "semiglobal", "sgprehash", "custom"]);
+                calls.push(format!("{},{},{}", e, hex(&x), hex(&y)));
+            }
+            // victim A / B
+            3 | 4 | 5 | 6 | 7 => {
+                let shape_a = match kind {
+                    0 | 1 => true,
+                    2 | 3 => step < 5, // semiglobal victims work with every aligner
+                    _ => rng.chance(1, 2),
+                };
+                let long = 3 + rng.below(6);
+                let short = 1 + rng.below(2);
+                let (a, b) = if shape_a { (long, short) } else { (short, long) };
+                let room = (m - a.min(m - 1)).min(n - b.min(n - 1));
+                let cl = (k + 1 + rng.below(6)).min(room.max(1));
+                let core = rng.seq(b"GT", cl);
+                let rate = *rng.pick(&[0usize, 0, 10, 25]);
+                let core2 = rng.mutate(&core, b"GT", rate);
+                let (x, y) = (framed(b'A', a, &core, m), framed(b'C', b, &core2, n));
+                if shape_a && (kind > 1 || rng.chance(1, 2)) {
+                    let e = *rng.pick(&["semiglobal", "sgprehash"]);
+                    calls.push(format!("{},{},{}", e, hex(&x), hex(&y)));
+                } else {
+                    calls.push(custom_family(rng, &x, &y));
+                }
+            }
+            // anything of the same shape
+            _ => {
+                let (x, y) = gen_related(rng, b"ACGT", m.max(n));
+                let (jx, jy) = (*rng.pick(b"ACGT"), *rng.pick(b"ACGT"));
+                let (x, y) = (framed(jx, 0, &x, m), framed(jy, 0, &y, n));
+                let e = *rng.pick(&["custom", "global", "semiglobal", "local", "prehash", "sgprehash", "tm"]);
+                calls.push(format!("{},{},{}", e, hex(&x), hex(&y)));
+            }
+        }
+    }
+    format!("{} kw:{}:{} {} {}", gen_cap(rng), k, w, sc.tokens(), calls.join(";"))
+}
+
 pub fn gen(tier: &str, rng: &mut Rng, out: &mut Vec<String>) {
     let thorough = tier == "thorough";
     let nhist = if thorough { 60000 } else { 8000 };
@@ -653,5 +777,10 @@ pub fn gen(tier: &str, rng: &mut Rng, out: &mut Vec<String>) {
                 }
             }
         }
+    }
+    // same-shape reuse histories (after everything else: the lines above are those of the earlier generator)
+    let nreuse = if thorough { 12000 } else { 1500 };
+    for _ in 0..nreuse {
+        out.push(gen_reuse_history(rng));
     }
 }
